@@ -81,13 +81,16 @@ CLAIMED.update({
         "one obligation per panic-capable SSA instruction (nil dereference, index and slice bounds, unchecked type assertion, division, explicit panic, non-nil receiver/node arguments "
         "of repository calls) generated from the current tree and discharged under the theory ast-valid (what the parser and type checker guarantee, deliberately nothing about "
         "argument counts derived from a callee's spelling; every fact guarded by 'is a node of a parsed tree', so the all-zero sentinel nodes of astcast and hand-built nodes are excluded; "
-        "validated against 7 643 real files in the thorough tier) and theory regex-syntax-valid (arity of the regexp parser's operations). About 3540 of about 3750 obligations are proved on the "
-        "unchanged tree and recorded in ledger/C01.proved; the check fails when one of them no longer discharges or is replaced by an undischarged one. The remaining obligations (listed in the "
+        "validated against 7 643 real files in the thorough tier) and theory regex-syntax-valid (arity of the regexp parser's operations). About 3760 of about 3970 obligations are proved on the "
+        "unchanged tree and recorded in ledger/C01.proved; the check fails when one of them no longer discharges or is replaced by an undischarged one, and when the solvers "
+        "REFUTE (model, not timeout) a new safety obligation of a function that has no undecided obligation on the unchanged tree (a new or an entirely proved function). The remaining obligations (listed in the "
         "evidence as undecided_not_claimed) are NOT claimed - an undecided obligation is a place nobody has looked at, two genuine crashes were found exactly there by sub-agents. The sweep relies on "
         "the contracts of other properties at call sites; the postconditions and loop invariants of those contracts are therefore obligations of this check as well (about 420). "
         "Termination of recursion: every function on a cycle of the static call graph (16 functions) carries a `decreases` measure - astDepth of a syntax node, typeDepth of a type literal "
         "(nothing is assumed about the underlying type of a defined type), rxDepth of a parsed regexp - or a stated reason (3 functions, listed as assumptions); one obligation per recursive call "
-        "(34 discharged, 18 about regexp walkers in the frontier). Loops without a decreases clause and recursion through function values are not examined.",
+        "(34 discharged, 18 about regexp walkers in the frontier). "
+        "Termination of loops: every loop of the swept packages is a range over a finite sequence or map, a counting loop towards a loop-invariant bound (decided on the SSA), or carries a `decreases` measure "
+        "discharged by the solvers (4 loops; one of them undecided). Recursion through function values and termination of dependencies are not examined.",
    design="§7 C01", technique="contract-based deductive verification, zero-annotation safety sweep with a ledger of proved obligations (SMT)"),
 })
 
@@ -167,7 +170,7 @@ CLAIMED.update({
 CLAIMED.update({
  "C02": dict(
    text="Determinism by elimination of its sources, decided on the SSA of the current tree: (1) one obligation per range-over-map loop in the analysis packages and both CLIs - the loop body emits "
-        "nothing, stores only into locations keyed by the iteration element or into objects it allocated, and any list it builds is sorted before use (or only feeds an error message); an emission "
+        "nothing, stores only into locations keyed by the iteration element or into objects it allocated, and any list it builds is sorted before use - by a total order on the elements (sort.Strings/Ints/Float64s/slices.Sort; a custom comparison only when the function's contract states why it is total) - ; an emission "
         "guarded by equality of the iteration value with a loop-invariant value is accepted under a listed injectivity assumption; (2) no call of clocks, random sources or process identity from "
         "analysis code; (3) no go statement in the analysis packages (the CLI's goroutines are C04: disjoint writes into per-checker slots, printed in slot order by checkFile's contract, C16). "
         "These are finite syntactic obligations decided by the generator itself, not by a solver; byte-identical output of the whole program additionally depends on go/packages, go/types and the rule "
@@ -229,6 +232,19 @@ CLAIMED.update({
         "for []byte operands; redundantSprint/preferStringWriter/stringConcatSimplify fixes regrouped operands; dynamicFmtString/stringXbytes/httpNoBody/preferFilepathJoin fixes named packages the file may not import. NOT covered: the ~20 hand-written checkers that quote replacement code in messages (go/printer output is not parsed), applying a fix and re-analysing the file.",
    design="§7 C09", technique="rule-data obligations decided by the generator and by go/types (no solver) + contract on the comment-formatting fix (SMT)"),
 })
+
+
+# sentences appended to the texts above (later rounds)
+ADDENDA = {
+ "C08": " The two commands cmd/go-critic and cmd/gocritic are byte-identical sources, i.e. the same program (one generator-decided obligation per file).",
+ "C16": " parseArgs accepts only exit codes a shell can tell from success (1..255) and at least one worker; a file is generated when a comment group of its header (before the package clause, possibly after a license text or build constraint) carries the marker; a file is classified by its own name, not by a //line directive.",
+ "C18": " The failure policy is validated even when no rules are given; the legacy failOnError flag adds `all` to whatever failOn lists.",
+ "C19": " The analyzer rejects an empty checker selection like the command does; Go version parts are unsigned decimals and the major version is at least 1.",
+ "C14": " SizeOf answers for instantiated generic types (only uninstantiated generics and type parameters have no size); rangeExprCopy looks through type aliases.",
+ "C15": " The user-rules checker hands the target version to the rule engine like the embedded-rules checker does.",
+}
+for _k, _v in ADDENDA.items():
+    CLAIMED[_k]["text"] += _v
 
 NA_REASON_PENDING = "check not built yet in this round (planned, DESIGN §7); not claimed until its obligations discharge"
 NOT_APPLICABLE = {
